@@ -145,6 +145,8 @@ structure DSt where
   consts : List (String × Val) := []
   uvars : List (String × Val) := []
   joins : List (Val × String) := []
+  navH : List String := defaultNavNames .host
+  navS : List String := defaultNavNames .service
   hosts : List (String × VarsRec) := []
   services : List ((String × String) × VarsRec) := []
   atoms : List (Nat × List (Option Val) × List (Option Val)) := []
@@ -172,6 +174,7 @@ structure DSt where
   cascadeCreated : Nat := 0
   rulesUse : Nat := 0
   boundChecked : Nat := 0
+  navDiffers : Nat := 0
   apiCollide : Nat := 0
   apiCollideNav : Nat := 0
   apiCollideRecognised : Nat := 0
@@ -225,7 +228,10 @@ def world (d : DSt) : World :=
       else if n == "check_period" && j.contains 'p' then .object "TimePeriod" "tp"
       else if n == "event_command" && j.contains 'e' then .object "EventCommand" "ecmd"
       else if n == "command_endpoint" && j.contains 'c' then .object "Endpoint" "ep"
-      else .empty }
+      else .empty
+    navNames := fun ty => match ty with
+      | .host => d.navH
+      | .service => d.navS }
 
 def varsOfHost (d : DSt) (n : String) : VarsRec := (d.hosts.lookup n).getD {}
 def varsOfService (d : DSt) (h s : String) : VarsRec := (d.services.lookup (h, s)).getD {}
@@ -423,8 +429,8 @@ def handleA (d : DSt) (n : Nat) (pre post : List String) : IO DSt := do
         | .host => (getTargetHosts (apiConsts fv) e).isSome
         | .service => (getTargetServices (apiConsts fv) e).isSome
       let dups := ((kvOf post "dups").bind String.toNat?).getD 0
-      let collide := fvarsCollide ty fv
-      let collideNav := (fv.getD []).any fun p => navNames.contains p.1 || (ty == .service && p.1 == "host")
+      let collide := fvarsCollide w ty fv
+      let collideNav := (fv.getD []).any fun p => (w.navNames ty).contains p.1
       let mut d := { d with steps := d.steps + 1, api := d.api + 1, apiDups := d.apiDups + (if dups > 0 then 1 else 0),
                             apiFast := d.apiFast + (if recognised then 1 else 0),
                             evals := d.evals + (targets inv ty).length,
@@ -491,17 +497,30 @@ def handle (d : DSt) (n : Nat) (line : String) : IO DSt := do
   | "C" :: _ =>
     let d := closeCase d
     let mut d := { d with consts := [], uvars := [], joins := [], hosts := [], services := [], atoms := [], rules := [],
+                          navH := defaultNavNames .host, navS := defaultNavNames .service,
                           caseNo := d.caseNo + 1, caseHash := 7 }
-    -- the names FilterUtility::EvaluateFilter binds, read from the type reflection, against the model's `apiBound`
+    -- the names FilterUtility::EvaluateFilter binds, read from the implementation's type reflection: the navigation
+    -- field names are an input of the model (`World.navNames`); what the model relies on (`NavOk`: obj and the type
+    -- name are bound, `host`/`service` denote the target) is checked here
     for (key, ty) in [("boundH", TgtType.host), ("boundS", TgtType.service)] do
       match kvOf post key with
       | none => pure ()
       | some impl =>
-        let model := ",".intercalate (sortStrs (apiBound ty))
+        let names := splitC impl
+        let navs := (names.erase "obj").erase (lcName ty)
         d := { d with boundChecked := d.boundChecked + 1 }
-        if ",".intercalate (sortStrs (splitC impl)) != model then
-          IO.println s!"MISMATCH line={n} case={d.caseNo} what=bound_names_{key} impl={impl} model={model}"
+        let ok := names.contains "obj" && names.contains (lcName ty) &&
+          (match ty with
+           | .host => !navs.contains "host"
+           | .service => navs.contains "host" && !navs.contains "service")
+        if !ok then
+          IO.println s!"MISMATCH line={n} case={d.caseNo} what=bound_names_{key} impl={impl} model=obj,{lcName ty},<navigation fields; host/service denote the target>"
           d := { d with mismatches := d.mismatches + 1 }
+        else
+          d := match ty with
+            | .host => { d with navH := navs }
+            | .service => { d with navS := navs }
+        if sortStrs navs != sortStrs (defaultNavNames ty) then d := { d with navDiffers := d.navDiffers + 1 }
     return d
   | w0 :: _ =>
     if w0.startsWith "#" || w0 == "STATS" then return d
@@ -540,4 +559,4 @@ def main : IO Unit := do
   let stdin ← IO.getStdin
   let d ← foldLines stdin handle ({} : DSt)
   let d := closeCase d
-  IO.println s!"STATS cases={d.caseNo} steps={d.steps} loads={d.loads} load_runs={d.loadRuns} evaluations={d.evals} rules_targeted={d.rulesTargeted} rules_regular={d.rulesRegular} rules_for={d.rulesFor} rules_ignore={d.rulesIgnore} rules_loopvar_shadow={d.rulesShadow} created={d.createdIndexed} created_by_index={d.createdByIndex} rejected_indexed={d.rejIndexed} rejected_plain={d.rejPlain} model_index_vs_plain_diverge={d.diverge} spec_silent={d.specSilent} cascade_cases={d.cascade} cascade_services={d.cascadeCreated} rules_use={d.rulesUse} bound_checked={d.boundChecked} api_collide={d.apiCollide} api_collide_nav={d.apiCollideNav} api_collide_recognised={d.apiCollideRecognised} api={d.api} api_recognised={d.apiFast} api_fast_nonempty={d.apiFastNonEmpty} api_dups={d.apiDups} api_err={d.apiErr} api_model_diverge={d.apiDiverge} nontrivial={d.nontrivial} mismatches={d.mismatches} specfails={d.specfails} badlines={d.badlines}"
+  IO.println s!"STATS cases={d.caseNo} steps={d.steps} loads={d.loads} load_runs={d.loadRuns} evaluations={d.evals} rules_targeted={d.rulesTargeted} rules_regular={d.rulesRegular} rules_for={d.rulesFor} rules_ignore={d.rulesIgnore} rules_loopvar_shadow={d.rulesShadow} created={d.createdIndexed} created_by_index={d.createdByIndex} rejected_indexed={d.rejIndexed} rejected_plain={d.rejPlain} model_index_vs_plain_diverge={d.diverge} spec_silent={d.specSilent} cascade_cases={d.cascade} cascade_services={d.cascadeCreated} rules_use={d.rulesUse} bound_checked={d.boundChecked} nav_names_differ_from_default={d.navDiffers} api_collide={d.apiCollide} api_collide_nav={d.apiCollideNav} api_collide_recognised={d.apiCollideRecognised} api={d.api} api_recognised={d.apiFast} api_fast_nonempty={d.apiFastNonEmpty} api_dups={d.apiDups} api_err={d.apiErr} api_model_diverge={d.apiDiverge} nontrivial={d.nontrivial} mismatches={d.mismatches} specfails={d.specfails} badlines={d.badlines}"
